@@ -36,6 +36,7 @@ pub struct Rt {
     pub allow: Option<(String, usize)>,
     pub procs: Vec<Proc>,
     pub watchers: Vec<Box<dyn FnMut(Vec<PathBuf>, bool)>>,
+    pub watched: Vec<(usize, PathBuf)>,
     pub ctrlc: bool,
     pub progress: u64,
     pub log: Option<std::fs::File>,
@@ -61,6 +62,7 @@ pub fn rt() -> &'static mut Rt {
                 allow: None,
                 procs: Vec::new(),
                 watchers: Vec::new(),
+                watched: Vec::new(),
                 ctrlc: false,
                 progress: 0,
                 log,
@@ -226,6 +228,7 @@ enum Step {
     ExitScript(String, i32),
     Signal,
     Notify(usize, bool, Vec<PathBuf>),
+    NotifyAll(Vec<PathBuf>),
     Crash(i32),
     Drain,
     Write(PathBuf, String),
@@ -267,6 +270,7 @@ fn parse_schedule() -> Vec<Step> {
             "exitscript" => out.push(Step::ExitScript(w[2..].join(" "), w[1].parse().unwrap())),
             "signal" => out.push(Step::Signal),
             "notify" => out.push(Step::Notify(w[1].parse().unwrap(), w[2] == "err", (3..w.len()).map(|i| path_at(i)).collect())),
+            "notifyall" => out.push(Step::NotifyAll((1..w.len()).map(|i| path_at(i)).collect())),
             "crash" => out.push(Step::Crash(w.get(1).map(|x| x.parse().unwrap()).unwrap_or(77))),
             "drain" => out.push(Step::Drain),
             "write" => out.push(Step::Write(path_at(1), w[2..].join(" "))),
@@ -415,6 +419,19 @@ pub fn block_on<F: Future>(future: F) -> F::Output {
                     let mut h = std::mem::replace(&mut r.watchers[wi], Box::new(|_, _| {}));
                     h(paths, is_err);
                     rt().watchers[wi] = h;
+                }
+            }
+            Step::NotifyAll(paths) => {
+                // what a recursive file-system watch does: the event reaches every watcher one of whose watched paths covers it
+                let n = rt().watchers.len();
+                for wi in 0..n {
+                    let covers = rt().watched.iter().any(|(w, root)| *w == wi && paths.iter().any(|p| p.starts_with(root)));
+                    log(&format!("notifyall w{} covers={} {:?}", wi, covers, paths));
+                    if covers {
+                        let mut h = std::mem::replace(&mut rt().watchers[wi], Box::new(|_, _| {}));
+                        h(paths.clone(), false);
+                        rt().watchers[wi] = h;
+                    }
                 }
             }
             Step::Crash(code) => {
